@@ -314,6 +314,10 @@ def class_tables(repo, module, clsname):
     return out
 
 
+class InjectiveKey:
+    undecided = []
+
+
 class Normaliser:
     def __init__(self, repo, fi):
         self.repo, self.fi = repo, fi
@@ -903,7 +907,10 @@ class Normaliser:
                     for st in s.body:
                         vnames |= names(st)
                     vdeps = closure(vnames - {C}) & loop_vars
-                    injective = self.injective_key(K, assigns, body[:i])
+                    injective = self.injective_key(K, assigns, body[:i], vbody=s.body)
+                    if injective and InjectiveKey.undecided:
+                        i += 1        # an order-forgetting key and a value that reads the collection in a way not classified: left as it is
+                        continue
                     if vdeps <= kdeps and injective:
                         tmp = self.fresh('memo')
                         new_body = list(s.body[:-1]) + [ast.copy_location(ast.Assign(targets=[ast.Name(id=tmp, ctx=ast.Store())], value=store.value), store)]
@@ -921,7 +928,11 @@ class Normaliser:
                             ast.fix_missing_locations(x)
                         i += len(new_body)
                         continue
-                    self.memo_issues.append((s, C, U(K), sorted(vdeps - kdeps) if not vdeps <= kdeps else ['<key not injective>']))
+                    lossy = '<key not injective>'
+                    if vdeps <= kdeps and self.injective_key(K, assigns, body[:i]):
+                        lossy = ('<the key forgets the order of the collection it is built from (frozenset), but the remembered value is computed from '
+                                 'that collection in the order given: the first ordering seen answers for every later one>')
+                    self.memo_issues.append((s, C, U(K), sorted(vdeps - kdeps) if not vdeps <= kdeps else [lossy]))
                 elif isinstance(s, ast.If):
                     process(s.body, loop_vars, loop_body)
                     process(s.orelse, loop_vars, loop_body)
@@ -943,8 +954,32 @@ class Normaliser:
             U(last.targets[0].value) == U(t.comparators[0]) and U(last.targets[0].slice) == U(t.left)
 
     @staticmethod
-    def injective_key(K, assigns, before):
-        """keys built from names by identity-preserving wrappers: x, id(x), tuple(x), (x, y), str? no"""
+    def injective_key(K, assigns, before, vbody=None):
+        """keys built from names by identity-preserving wrappers: x, id(x), tuple(x), (x, y), [x] / (x,) for a bare string else tuple(x).
+        With `vbody` (the statements that compute the remembered value): an ORDER-FORGETTING wrapper (frozenset / set / sorted) is
+        accepted only when the value never reads the wrapped collection itself - otherwise the first ordering seen answers for all."""
+        def arms_of(name):
+            """name = A / name = B in the two arms of an `if` just before (the statement form of a conditional expression)"""
+            for st in reversed(before):
+                if isinstance(st, ast.If) and len(st.body) == 1 and len(st.orelse) == 1:
+                    vals = []
+                    for b in (st.body[0], st.orelse[0]):
+                        if isinstance(b, ast.Assign) and len(b.targets) == 1 and isinstance(b.targets[0], ast.Name) and b.targets[0].id == name:
+                            vals.append(b.value)
+                    if len(vals) == 2:
+                        return vals
+                if any(isinstance(n, ast.Name) and n.id == name and isinstance(n.ctx, ast.Store) for n in ast.walk(st)):
+                    return None
+            return None
+
+        undecided = []
+        InjectiveKey.undecided = undecided
+
+        def set_parents_(n0):
+            for n in ast.walk(n0):
+                for ch in ast.iter_child_nodes(n):
+                    ch._nparent = n
+
         def ok(e, depth=0):
             if isinstance(e, ast.Name):
                 # a local `key = id(Q)` defined just before
@@ -952,11 +987,39 @@ class Normaliser:
                     if isinstance(st, ast.Assign) and len(st.targets) == 1 and isinstance(st.targets[0], ast.Name) and st.targets[0].id == e.id \
                             and depth < 3:
                         return ok(st.value, depth + 1)
+                arms = arms_of(e.id) if depth < 3 else None
+                if arms is not None:
+                    return all(ok(a, depth + 1) for a in arms)
                 return True
             if isinstance(e, ast.Call) and isinstance(e.func, ast.Name) and e.func.id in ('id', 'tuple', 'frozenset') and len(e.args) == 1:
+                if e.func.id == 'frozenset' and vbody is not None:
+                    inner = {x.id for x in ast.walk(e.args[0]) if isinstance(x, ast.Name)} - {'type', 'str', 'isinstance', 'tuple', 'list'}
+                    ktext = U(e)
+                    for st in vbody:
+                        for x in ast.walk(st):
+                            if isinstance(x, ast.Call) and U(x) == ktext:
+                                for y in ast.walk(x):
+                                    y._in_key = True
+                        set_parents_(st)
+                        for x in ast.walk(st):
+                            if isinstance(x, ast.Name) and x.id in inner and isinstance(x.ctx, ast.Load) and not getattr(x, '_in_key', False):
+                                par = getattr(x, '_nparent', None)
+                                if isinstance(par, ast.Call) and x in par.args:
+                                    fn = U(par.func).split('.')[-1]
+                                    if fn in ('size', 'len', 'set', 'frozenset', 'sorted', 'issubset', 'issuperset', 'isdisjoint'):
+                                        continue          # does not look at the order
+                                    if fn in ('project', 'tuple', 'list', 'transpose', 'expand', 'canonical', 'axes', 'marginalize', 'enumerate'):
+                                        return False      # keeps the order given
+                                if isinstance(par, ast.Compare) and x in par.comparators and all(isinstance(o, (ast.In, ast.NotIn)) for o in par.ops):
+                                    continue
+                                if isinstance(par, (ast.For, ast.comprehension)) and par.iter is x:
+                                    return False
+                                undecided.append(U(par) if par is not None else x.id)
                 return ok(e.args[0], depth)
-            if isinstance(e, ast.Tuple):
+            if isinstance(e, (ast.Tuple, ast.List)):
                 return all(ok(x, depth) for x in e.elts)
+            if isinstance(e, ast.IfExp):
+                return ok(e.body, depth) and ok(e.orelse, depth)
             return False
         return ok(K)
 
